@@ -405,3 +405,47 @@ func (g *Gen) modStatic(fx *fnExec, ct *Contract, info *calleeInfo, cc *ssa.Call
 	}
 	panic(engineErr(fmt.Sprintf("cannot resolve modifies entry %s of %s statically", m, ct.Key)))
 }
+
+var deterministicPkgs = map[string]bool{"strings": true, "bytes": true, "fmt": true, "strconv": true, "regexp": true, "go/format": true, "errors": true, "unicode": true, "unicode/utf8": true, "sort": true, "path": true}
+
+// nondeterminism scans the static call graph of f for sources of nondeterminism; "" if none.
+func (g *Gen) nondeterminism(f *ssa.Function, seen map[*ssa.Function]bool) string {
+	if seen[f] {
+		return ""
+	}
+	seen[f] = true
+	for _, b := range f.Blocks {
+		for _, in := range b.Instrs {
+			switch x := in.(type) {
+			case *ssa.Range:
+				if _, ok := x.X.Type().Underlying().(*types.Map); ok {
+					return "range over a map in " + f.String()
+				}
+			case *ssa.Go:
+				return "go statement in " + f.String()
+			case *ssa.Select:
+				return "select in " + f.String()
+			case ssa.CallInstruction:
+				cc := x.Common()
+				if cc.IsInvoke() {
+					continue // interface calls on values derived from the arguments
+				}
+				callee := cc.StaticCallee()
+				if callee == nil {
+					continue
+				}
+				pk := g.fnPkgPath(callee)
+				if g.repoPkgs[pk] {
+					if w := g.nondeterminism(callee, seen); w != "" {
+						return w
+					}
+					continue
+				}
+				if !deterministicPkgs[pk] {
+					return "call to " + callee.String() + " in " + f.String()
+				}
+			}
+		}
+	}
+	return ""
+}
